@@ -328,11 +328,27 @@ pub fn run(o: &Opts, _deck: &str) -> String {
         m.save();
         let found: Vec<String> = [Street::Pref, Street::Flop, Street::Turn, Street::Rive].iter().filter(|s| std::path::Path::new(&Metric::path(**s)).exists()).map(|s| (*s as isize).to_string()).collect();
         let back = catch(|| Metric::load(street).verif_entries() == want).map(|b| if b { "1" } else { "0" }).unwrap_or("P");
+        // the last 48 byte offsets of the full-size file (a loader that counts the street's pairs could stop early)
+        let tailcuts = {
+            let path = Metric::path(street);
+            match std::fs::read(&path) {
+                Ok(bytes) if bytes.len() > 48 => {
+                    let mut cs = String::new();
+                    for n in bytes.len() - 48..bytes.len() {
+                        std::fs::write(&path, &bytes[..n]).unwrap();
+                        cs.push(match catch(|| Metric::load(street).verif_entries()) { None => 'E', Some(t) => if t == want { 'S' } else { 'D' } });
+                    }
+                    std::fs::write(&path, &bytes).unwrap();
+                    cs
+                }
+                _ => "-".into(),
+            }
+        };
         for s in [Street::Rive, Street::Turn, Street::Flop, Street::Pref] {
             let _ = std::fs::remove_file(Metric::path(s));
         }
         files += 1;
-        out.line(&format!("mstreet {} {} | {} {}", street as isize, n, if found.is_empty() { "-".into() } else { found.join(",") }, back));
+        out.line(&format!("mstreet {} {} | {} {} {}", street as isize, n, if found.is_empty() { "-".into() } else { found.join(",") }, back, tailcuts));
     }
     let _ = std::fs::remove_dir_all(&dir);
     let lines = out.finish();
